@@ -36,13 +36,15 @@ let run (cases : case list) =
     let inq = ref [] in             (* peer frames not yet consumed by a read *)
     let active = ref None in        (* the read in flight *)
     let chains : (string, string * int) Hashtbl.t = Hashtbl.create 7 in
+    let closed_by_us = ref false in
+    let src_sim = ref [] in          (* frames the client has read from the socket and not decoded yet *)
     let drain () =
       let go = ref true in
       while !go do
-        match !active, !inq with
+        match !active, !src_sim with
         | Some rid, (opc, p) :: r ->
-          inq := r;
-          if opc = "9" then exp_pongs := !exp_pongs @ [Printf.sprintf "10:%s" p]
+          src_sim := r;
+          if opc = "9" then (if not !closed_by_us then exp_pongs := !exp_pongs @ [Printf.sprintf "10:%s" p])
           else begin exp_msgs := !exp_msgs @ [(rid, Printf.sprintf "%s:%s" opc p)]; active := None end
         | _ -> go := false
       done in
@@ -57,6 +59,7 @@ let run (cases : case list) =
         | ["peer"; opc; h] -> Some (WaPeer (z_of_string opc, zlist_of_hex h))
         | ["chain"; w; w2; n] -> Some (WaChain (z_of_string w, z_of_string w2, gen_list (out_byte (int_of_string w2)) (int_of_string n)))
         | ["poll"] -> Some (WaPoll (z_of_int 100000000))
+        | ["close"; id] -> Some (WaClose (z_of_string id))
         | ["frames"] -> None
         | _ -> failwith ("wsasync: bad op " ^ op)) in
       if !agree then begin
@@ -65,7 +68,8 @@ let run (cases : case list) =
         let s' = !st in
         let newev = List.rev (take (List.length s'.a_log - before) s'.a_log) in
         let evs = List.map (fun ((id, opc), p) ->
-            if int_of_z opc = 0 then Printf.sprintf "cb=%s:0:-" (string_of_z id)
+            if int_of_z opc < 0 then Printf.sprintf "cb=%s:err%d" (string_of_z id) (- (int_of_z opc))
+            else if int_of_z opc = 0 then Printf.sprintf "cb=%s:0:-" (string_of_z id)
             else Printf.sprintf "cb=%s:%s:%s" (string_of_z id) (string_of_z opc) (bytes_repr p)) newev in
         let base = if evs = [] then "-" else String.concat " " evs in
         let line = (match mop with
@@ -82,12 +86,19 @@ let run (cases : case list) =
           (match toks with
            | ["read"; id] -> Hashtbl.replace started id "read"; active := Some id
            | ["write"; id; n] ->
-             Hashtbl.replace started id "write";
-             exp_writes := !exp_writes @ [Printf.sprintf "2:%s" (bytes_repr (gen_list (out_byte (int_of_string id)) (int_of_string n)))]
+             if !closed_by_us then Hashtbl.replace started id "refused"
+             else begin
+               Hashtbl.replace started id "write";
+               exp_writes := !exp_writes @ [Printf.sprintf "2:%s" (bytes_repr (gen_list (out_byte (int_of_string id)) (int_of_string n)))]
+             end
+           | ["close"; id] ->
+             if !closed_by_us then Hashtbl.replace started id "refused"
+             else begin Hashtbl.replace started id "write"; closed_by_us := true; exp_writes := !exp_writes @ ["8:03e8"] end
            | ["peer"; opc; h] -> inq := !inq @ [(opc, bytes_repr (zlist_of_hex h))]
            | ["chain"; w; w2; n] -> Hashtbl.replace chains w (w2, int_of_string n)
+           | ["poll"] -> if !active <> None then begin src_sim := !src_sim @ !inq; inq := [] end
            | _ -> ());
-          drain ();
+          (match toks with ["poll"] | ["read"; _] -> drain () | _ -> ());
           List.iter (fun tok ->
             if !oracle_live && String.length tok > 3 && String.sub tok 0 3 = "cb=" then
               match String.split_on_char ':' (String.sub tok 3 (String.length tok - 3)) with
@@ -101,13 +112,17 @@ let run (cases : case list) =
                     match List.assoc_opt id !exp_msgs with
                     | Some m -> if String.concat ":" rest <> m then fail i "3" op impl
                     | None -> fail i "3" op impl
-                  end else if rest <> ["0"; "-"] then fail i "4" op impl
+                  end else if Hashtbl.find started id = "refused" then (if rest <> ["err2"] then fail i "6" op impl)
+                  else if rest <> ["0"; "-"] then fail i "4" op impl
                   else begin
                     (* the callback of this write starts the next one of its chain *)
                     match Hashtbl.find_opt chains id with
                     | Some (id2, n) ->
-                      Hashtbl.replace started id2 "write";
-                      exp_writes := !exp_writes @ [Printf.sprintf "2:%s" (bytes_repr (gen_list (out_byte (int_of_string id2)) n))]
+                      if !closed_by_us then Hashtbl.replace started id2 "refused"
+                      else begin
+                        Hashtbl.replace started id2 "write";
+                        exp_writes := !exp_writes @ [Printf.sprintf "2:%s" (bytes_repr (gen_list (out_byte (int_of_string id2)) n))]
+                      end
                     | None -> ()
                   end
                 end
@@ -117,7 +132,10 @@ let run (cases : case list) =
            | Some fs ->
              let got = if fs = "" then [] else String.split_on_char ',' fs in
              let pre k l = String.length l >= String.length k && String.sub l 0 (String.length k) = k in
-             let gw = List.filter (pre "2:") got and gp = List.filter (pre "10:") got in
+             let gw = List.filter (fun x -> pre "2:" x || pre "8:" x) got and gp = List.filter (pre "10:") got in
+             (* 6: nothing but Pongs may follow our Close frame on the wire *)
+             let rec after_close l = match l with [] -> [] | x :: r -> if pre "8:" x then r else after_close r in
+             if List.exists (fun x -> not (pre "10:" x)) (after_close got) then fail i "6" op impl else
              let prefix a b = List.length a <= List.length b && take (List.length a) b = a in
              (* settled: the script ran the loop at least six times right before looking at the wire *)
              let ops_before = List.rev (take i (List.map fst c.steps)) in
